@@ -23,7 +23,7 @@ import (
 )
 
 type rtEvent struct {
-	Ev    string `json:"ev"` // identify protoupd lookup cancelled-lookup refresh advance health close-refresh
+	Ev    string `json:"ev"` // identify protoupd lookup cancelled-lookup refresh advance health close-refresh fixlow (one pass of the low-peers repair over the connected peers)
 	Peer  int    `json:"peer,omitempty"`
 	Proto bool   `json:"proto,omitempty"` // identify/protoupd: the peer advertises the DHT protocol
 	Conn  bool   `json:"conn,omitempty"`
@@ -44,6 +44,9 @@ type rtSc struct {
 	Rejected []int     `json:"rejected"` // indices the routing-table filter rejects
 	CheckCap int       `json:"check_cap"`
 	Events   []rtEvent `json:"events"`
+	// PreConn: peers already connected when the DHT is constructed (New looks at them), each with or without the DHT protocol
+	// in the peerstore: (peer index, advertises)
+	PreConn [][2]int `json:"pre_conn,omitempty"`
 }
 
 type interaction struct {
@@ -98,6 +101,17 @@ func runRT(t *testing.T, sc *rtSc) (res verifsim.Result) {
 		for _, r := range sc.Rejected {
 			rejected[peer.ID(pp.IDs[sc.Peers[r%len(sc.Peers)].ID])] = true
 		}
+		advertises := map[peer.ID]bool{} // what the peerstore currently says about the peer's DHT protocol support
+		for _, pc := range sc.PreConn {
+			p := peer.ID(pp.IDs[sc.Peers[pc[0]%len(sc.Peers)].ID])
+			if pc[1] != 0 {
+				h.Peerstore().SetProtocols(p, "/sim/kad/1.0.0")
+			} else {
+				h.Peerstore().SetProtocols(p, "/other/1.0.0")
+			}
+			advertises[p] = pc[1] != 0
+			h.Net().SetConnected(p, true)
+		}
 		d, err := New(h,
 			WithCustomMessageSender(func(host.Host, []protocol.ID) pb.MessageSenderWithDisconnect { return sim }),
 			ProtocolPrefix("/sim"), BucketSize(sc.K), Concurrency(sc.Alpha), Resiliency(sc.Beta), DisableAutoRefresh(), Mode(ModeClient),
@@ -118,6 +132,8 @@ func runRT(t *testing.T, sc *rtSc) (res verifsim.Result) {
 		defer emID.Close()
 		defer emPU.Close()
 		everMember := map[peer.ID]bool{}
+		prevMembers := map[peer.ID]bool{}
+		prevLogLen := 0
 		cancelledWindows := [][2]time.Duration{}
 		settle := func() { time.Sleep(3 * time.Minute); verifsim.Quiesce() }
 		check := func(step string) bool {
@@ -140,10 +156,33 @@ func runRT(t *testing.T, sc *rtSc) (res verifsim.Result) {
 					res.Fail("proven", "C12/member/unproven", "%s: member %s never answered a request from this node", step, shortID(m))
 					return false
 				}
-				if rejected[m] {
-					// a filtered peer may only be admitted through a lookup answer, never through the probe; both need a real answer (checked above)
+				// a peer admitted since the last quiescent point was admitted by an answer it gave since then: to a lookup query, or
+				// to the admission probe (FIND_NODE for its own id) - the probe only counts for a peer that advertises the DHT
+				// protocol and passes the routing-table filter
+				if !prevMembers[m] {
+					qualifies, viaProbeOnly := false, false
+					for i := prevLogLen; i < len(log); i++ {
+						e := log[i]
+						if e.Peer != m || e.Kind != "request" || e.Outcome != "ok" {
+							continue
+						}
+						isProbe := e.Type == pb.Message_FIND_NODE && e.Req != nil && string(e.Req.GetKey()) == string(m)
+						if !isProbe || (advertises[m] && !rejected[m]) {
+							qualifies = true
+						} else {
+							viaProbeOnly = true
+						}
+					}
+					if !qualifies && viaProbeOnly {
+						res.Fail("probe-needs-protocol-and-filter", "C12/admit/probe-without-protocol-or-filter", "%s: %s was admitted on the strength of the admission probe alone although it does not advertise the DHT protocol (advertises=%v) or is rejected by the routing-table filter (rejected=%v)", step, shortID(m), advertises[m], rejected[m])
+						return false
+					}
 				}
 			}
+			defer func() {
+				prevMembers = isMember
+				prevLogLen = len(log)
+			}()
 			// latest interaction per peer
 			inCancelled := func(e verifnet.Exchange) bool {
 				for _, w := range cancelledWindows {
@@ -210,6 +249,11 @@ func runRT(t *testing.T, sc *rtSc) (res verifsim.Result) {
 				}
 			}
 		}
+		// admissions made by the constructor itself (peers already connected) are judged before any event changes what they advertise
+		settle()
+		if !check("construction") {
+			return
+		}
 		for i, ev := range sc.Events {
 			step := fmt.Sprintf("event %d %s", i, ev.Ev)
 			var p peer.ID
@@ -225,6 +269,7 @@ func runRT(t *testing.T, sc *rtSc) (res verifsim.Result) {
 					h.Peerstore().SetProtocols(p, "/other/1.0.0")
 					goneAt[p] = len(sim.Log())
 				}
+				advertises[p] = ev.Proto
 				if ev.Conn {
 					h.Net().SetConnected(p, true)
 				}
@@ -259,6 +304,8 @@ func runRT(t *testing.T, sc *rtSc) (res verifsim.Result) {
 				if !awaitOne(step, ch) {
 					return
 				}
+			case "fixlow":
+				d.fixLowPeers()
 			case "advance":
 				time.Sleep(time.Duration(ev.Min) * time.Minute)
 			case "health":
@@ -317,9 +364,9 @@ func TestVerif_C12_RoutingTable(t *testing.T) {
 	verifsim.RunCheck(t, verifsim.Check[rtSc]{
 		Property: "C12", Part: "routing-table",
 		Rule: "rapid: histories of 1-14 events over 2-14 simulated peers: identify-completed / protocols-updated (protocol advertised or not, connected or not), lookups (peers healthy, failing dial, failing or silent on requests; " +
-			"health changes between events), lookups cancelled mid-flight, RefreshRoutingTable / ForceRefresh, clock advances past the liveness grace period, Close racing refresh requests; routing-table filter rejecting a drawn subset, lookup-check " +
+			"health changes between events), lookups cancelled mid-flight, passes of the low-peers repair over the connected peers, peers already connected (with or without the protocol) when the DHT is constructed, RefreshRoutingTable / ForceRefresh, clock advances past the liveness grace period, Close racing refresh requests; routing-table filter rejecting a drawn subset, lookup-check " +
 			"concurrency 1-3; at every quiescent point: the local node is no member, every member has a successful answer in the simulation log, a peer whose latest interaction is an uncancelled dial/request failure, a failed probe or a protocol-gone " +
-			"event is no member, every refresh channel delivers exactly one value and closes; non-trivial = a peer admitted and later evicted, or a cancelled lookup with failures",
+			"event is no member, a peer admitted since the previous quiescent point gave an answer since then - to a lookup query, or to the admission probe while advertising the protocol and passing the filter -, every refresh channel delivers exactly one value and closes; non-trivial = a peer admitted and later evicted, or a cancelled lookup with failures",
 		Gen: func(t *rapid.T) rtSc {
 			sc := rtSc{K: rapid.IntRange(1, 5).Draw(t, "k"), Alpha: rapid.IntRange(1, 3).Draw(t, "alpha"), Self: rapid.IntRange(0, unknownBase-1).Draw(t, "self"), CheckCap: rapid.IntRange(1, 3).Draw(t, "checkCap")}
 			sc.Beta = rapid.IntRange(1, sc.K).Draw(t, "beta")
@@ -332,6 +379,9 @@ func TestVerif_C12_RoutingTable(t *testing.T) {
 				sc.Peers[i].DialMs = rapid.IntRange(0, 200).Draw(t, "dialMs")
 			}
 			sc.Rejected = rapid.SliceOfN(rapid.IntRange(0, n-1), 0, 2).Draw(t, "rejected")
+			sc.PreConn = rapid.SliceOfN(rapid.Custom(func(t *rapid.T) [2]int {
+				return [2]int{rapid.IntRange(0, n-1).Draw(t, "prePeer"), rapid.IntRange(0, 1).Draw(t, "preProto")}
+			}), 0, 3).Draw(t, "preConn")
 			sc.Events = rapid.SliceOfN(rapid.Custom(func(t *rapid.T) rtEvent {
 				p := rapid.IntRange(0, n-1).Draw(t, "peer")
 				switch rapid.IntRange(0, 13).Draw(t, "kind") {
@@ -346,6 +396,9 @@ func TestVerif_C12_RoutingTable(t *testing.T) {
 				case 9:
 					return rtEvent{Ev: "refresh", Force: rapid.Bool().Draw(t, "force")}
 				case 10:
+					if rapid.Bool().Draw(t, "fixlow") {
+						return rtEvent{Ev: "fixlow"}
+					}
 					return rtEvent{Ev: "advance", Min: rapid.SampledFrom([]int{5, 30, 90}).Draw(t, "min")}
 				case 11, 12:
 					return rtEvent{Ev: "health", Peer: p, Dial: rapid.SampledFrom([]string{"", "", "fail"}).Draw(t, "dial"), Req: rapid.SampledFrom([]string{"", "fail", "silent"}).Draw(t, "req")}
